@@ -333,7 +333,13 @@ def run_case(case, ctx=None):
 @st.composite
 def cases(draw):
     spec = draw(GS.specs(rich=True, with_subscription=draw(st.integers(0, 3)) == 0))
-    spec["directives"] = [{"name": "cd", "locations": ["FIELD"], "args": [{"name": "n", "type": "Int", "default": 1}], "desc": "d"}]
+    dargs = [{"name": "n", "type": "Int", "default": 1}]
+    own = [n for n in spec["order"] if spec["types"][n]["kind"] in ("input", "enum", "scalar")]
+    if own and draw(st.booleans()):
+        # an argument of a type the schema defines itself: transforms that rebuild types must re-point it too
+        base = draw(st.sampled_from(own))
+        dargs.append({"name": "type_arg", "type": draw(st.sampled_from([base, "[%s!]" % base])), "desc": None})
+    spec["directives"] = [{"name": "cd", "locations": ["FIELD"], "args": dargs, "desc": "d"}]
     mode = draw(st.sampled_from(["code", "sdl"]))
     eff = H.sdl_view(spec) if mode == "sdl" else spec
     probe = draw(GD.requests(eff, op_kind="query", multi_op=False))
